@@ -132,6 +132,12 @@ def run():
     from obligations import path_kernels
     guarded("path hash", lambda: path_kernels.hash128_obligations(rep, prog, "C03"))
 
+    # a readable file must not be dropped because descriptors ran out: the hashing task holds its open-file permit across the hash call
+    def permits():
+        from obligations import C19
+        C19.users(rep, ctx)
+    guarded("open-file permits", permits)
+
     # the statement holds for every configuration "including ... cache": a cache that serves a wrong (length, hash) splits or merges classes
     def cache():
         from obligations import C12
